@@ -132,11 +132,84 @@ Proof. destruct l; cbn; try lia; destruct k; cbn; lia. Qed.
 
 Ltac g_simp := cbn [retiring ewin need kneed_pre kneed_post wpc wheld wclean b2n negb andb length] in *.
 
+
+Lemma count_disjoint_le {A} (g1 g2 h : A -> bool) f n :
+  (forall i, (i < n)%nat -> g1 (f i) = true -> h (f i) = true /\ g2 (f i) = false) ->
+  (forall i, (i < n)%nat -> g2 (f i) = true -> h (f i) = true) ->
+  (count g1 f n + count g2 f n <= count h f n)%nat.
+Proof.
+  induction n as [|k IH]; intros H1 H2; cbn [count]; [lia|].
+  specialize (IH (fun i Hi => H1 i ltac:(lia)) (fun i Hi => H2 i ltac:(lia))).
+  specialize (H1 k ltac:(lia)). specialize (H2 k ltac:(lia)).
+  destruct (g1 (f k)); destruct (g2 (f k)); destruct (h (f k)); cbn [b2n];
+    try lia; try (destruct (H1 eq_refl); discriminate); try (specialize (H2 eq_refl); discriminate).
+Qed.
+
+(** a worker that has decided to retire (it holds the pool lock) leaves enough threads for every unfinished task *)
+Definition I_ret (s : st) : Prop := forall w, retiring (ws s w) = true -> unfinished s <= nb_eff s.
+
+Lemma P_ret s t f s' : I_created s -> I_lock s -> I_wf s -> I_ret s -> step s t f = Some s' -> I_ret s'.
+Proof.
+  intros Hcr Hlk Hwf Hr H. pose proof Hcr as [Hcr1 Hcr2]. unfold I_ret in *.
+  open_step2 H; use_lockop; simp; worker_lt Hcr; use_wf Hwf.
+  all: intros w' Hw'.
+  all: try (match goal with Ec : cs ?s1 ?c = mkC (CSTStart ?k ?w) _ _ |- _ =>
+              let X := fresh "Hwlt" in let Y := fresh "Hwnew" in destruct (Hcr2 c k w) as [X Y]; [rewrite Ec; reflexivity|] end).
+  all: revert Hw'; simp; split_upd; simp; g_simp; try discriminate; intros Hw'.
+  all: try solve [pose proof (Hr _ Hw') as Hx; unfold nb_eff in *; simp; revert Hx; rewrite ?count_new; count_goal; rew_w;
+                  try rewrite Hwnew in *; g_simp;
+                  try match goal with E : q _ = _ |- _ => rewrite E in *; cbn [length] in * end; intros; lia].
+  all: try solve [exfalso; match goal with
+                  | Ew : ws ?s1 ?w = mkW _ _ _, Hn : ?w2 <> ?w |- _ =>
+                      apply (two_wlockers s1 w2 w Hlk Hn); [unfold retiring in Hw'; destruct (wpc (ws s1 w2)); try discriminate; cbn; lia | rewrite Ew; cbn; lia]
+                  | Ec : cs ?s1 ?c = mkC _ _ _ |- _ =>
+                      apply (wc_lockers s1 w' c Hlk); [unfold retiring in Hw'; destruct (wpc (ws s1 w')); try discriminate; cbn; lia | rewrite Ec; cbn; lia]
+                  end].
+  (* WTest decides to retire: unfinished < nb_threads, and nobody else can be retiring (it holds the lock) *)
+  apply andb_true_iff in Eg as [_ Eg]. apply Z.ltb_lt in Eg.
+  assert (Hd : (0 < wdepth (wpc (ws s w)))%nat) by (rewrite Ew; cbn; lia).
+  pose proof (retiring_only_locker s w Hlk H Hd) as Hr0. rewrite Ew in Hr0. cbn in Hr0.
+  unfold nb_eff. simp. rewrite Ew. simp.
+  pose proof (count_upd_lt retiring (ws s) w {| wpc := WNbDec; wheld := held; wclean := clean |} (next_w s) H) as E.
+  rewrite Ew in E. cbn [retiring wpc b2n] in E. lia.
+Qed.
+
+
+Ltac gpre c :=
+  match goal with
+  | Ec : cs ?s c = _, Hlk : I_lock ?s, Hctl : I_ctl ?s,
+    Hg : stopped ?s = false -> _ |- _ =>
+      let Hst := fresh "Hst" in let Hq := fresh "Hq" in
+      intros Hst Hq;
+      assert (Hcd : (0 < cdepth (cpc (cs s c)))%nat) by (rewrite Ec; cbn; lia);
+      pose proof (retiring_none_if_client_locks s c Hlk Hcd) as Hr0;
+      pose proof (need_nonneg (cpc (cs s 0%nat))) as Hn;
+      assert (Hq0 : cpc (cs s 0%nat) <> CSTQsize)
+        by (intros Hx; ctl_cases Hctl; simp; try (rewrite Ec in Hx; discriminate); try (apply Hq; exact Hx); try congruence);
+      destruct (Hg Hst Hq0) as (G1 & G0 & G3)
+  end.
+Ltac nowin c :=
+  match goal with
+  | Hlk : I_lock ?s, Hcd : (0 < cdepth (cpc (cs ?s c)))%nat |- _ =>
+      let c' := fresh "c'" in let Hc' := fresh "Hc'" in let Hcc := fresh "Hcc" in
+      intros c' Hc'; exfalso; revert Hc'; simp; destruct (Nat.eq_dec c' c) as [->|Hcc];
+      [ rewrite upd_same; simp; g_simp; discriminate
+      | rewrite upd_other by exact Hcc; intros Hc'; rewrite (window_unique s c c' Hlk Hcd Hcc) in Hc'; discriminate ]
+  end.
+
+Ltac noret :=
+  match goal with
+  | Hlk : I_lock ?s, Hcd : (0 < cdepth (cpc (cs ?s ?cc)))%nat |- retiring (ws ?s ?w') = true -> False =>
+      let Hw' := fresh "Hw'" in
+      intros Hw'; apply (wc_lockers s w' cc Hlk); [|exact Hcd];
+      unfold retiring in Hw'; destruct (wpc (ws s w')); try discriminate; cbn; lia
+  end.
+
 Lemma P_growth s t f s' :
-  I_ctl s -> I_created s -> I_cfg s -> I_lock s -> I_wf s -> I_nb s -> I_unf s -> I_flag s -> I_nosent s -> I_pend s ->
+  I_ctl s -> I_created s -> I_cfg s -> I_lock s -> I_wf s -> I_nb s -> I_unf s -> I_flag s -> I_nosent s -> I_pend s -> I_ret s ->
   I_growth s -> step s t f = Some s' -> I_growth s'.
 Proof.
-  intros Hctl Hcr Hcfg Hlk Hwf Hnb Hunf Hfl Hns Hpd Hg H. pose proof Hcr as [Hcr1 Hcr2].
+  intros Hctl Hcr Hcfg Hlk Hwf Hnb Hunf Hfl Hns Hpd Hret Hg H. pose proof Hcr as [Hcr1 Hcr2].
   unfold I_growth, ctl in *.
   open_step2 H; use_lockop; simp; worker_lt Hcr; use_wf Hwf.
   (* ---- worker steps that change no quantity of the claim, or only decrease unfinished_tasks *)
@@ -246,11 +319,159 @@ Proof.
     specialize (P0 Hnp). rewrite (qtasks_all _ Hk) in P0. unfold I_unf in Hunf.
     pose proof (need_nonneg (cpc (cs s 0%nat))) as Hn.
     split; [|split].
-    + intros c' Hc'. exfalso. revert Hc'. split_upd; simp; [discriminate|]. intros Hc'.
-      rewrite (window_unique s c c' Hlk Hcd n) in Hc'. discriminate.
+    + intros c' Hc'. exfalso. revert Hc'. simp. destruct (Nat.eq_dec c' c) as [->|Hcc]; [rewrite upd_same; simp; discriminate|].
+      rewrite upd_other by exact Hcc. intros Hc'. rewrite (window_unique s c c' Hlk Hcd Hcc) in Hc'. discriminate.
     + intros _. left. unfold nb_eff, ctl. simp. rewrite Hr0.
       ctl_cases Hctl; simp; try (rewrite Ec in * ); simp; g_simp; lia.
     + intros w' Hw'. exfalso. simp. apply (wc_lockers s w' c Hlk); [|exact Hcd].
       unfold retiring in Hw'. destruct (wpc (ws s w')); try discriminate; cbn; lia.
-  all: show_goal.
-Admitted.
+  - (* CSTest KEnq refuses: max_threads reached *)
+    gpre c. match goal with H : stopped s = false |- _ => rewrite H, orb_false_r in Eg end. apply Z.leb_le in Eg.
+    split; [|split].
+    + nowin c.
+    + intros _. right. unfold ctl. simp. ctl_cases Hctl; simp; try (rewrite Ec in * ); simp; g_simp; lia.
+    + intros w' Hw'. exfalso. simp. apply (wc_lockers s w' c Hlk); [|exact Hcd].
+      unfold retiring in Hw'. destruct (wpc (ws s w')); try discriminate; cbn; lia.
+  - (* CSTest (KStartA a b) refuses: max_threads reached (start() is running: not stopped) *)
+    gpre c. match goal with H : stopped s = false |- _ => rewrite H, orb_false_r in Eg end. apply Z.leb_le in Eg.
+    split; [|split].
+    + nowin c.
+    + intros _. right. unfold ctl. simp. ctl_cases Hctl; simp; try (rewrite Ec in * ); simp; g_simp; lia.
+    + intros w' Hw'. exfalso. simp. apply (wc_lockers s w' c Hlk); [|exact Hcd].
+      unfold retiring in Hw'. destruct (wpc (ws s w')); try discriminate; cbn; lia.
+  - (* CSTest (KStartB b) refuses: max_threads reached (start() is running: not stopped) *)
+    gpre c. match goal with H : stopped s = false |- _ => rewrite H, orb_false_r in Eg end. apply Z.leb_le in Eg.
+    split; [|split].
+    + nowin c.
+    + intros _. right. unfold ctl. simp. ctl_cases Hctl; simp; try (rewrite Ec in * ); simp; g_simp; lia.
+    + intros w' Hw'. exfalso. simp. apply (wc_lockers s w' c Hlk); [|exact Hcd].
+      unfold retiring in Hw'. destruct (wpc (ws s w')); try discriminate; cbn; lia.
+  - (* CSNbInc KEnq: the enqueuer's new thread is counted; it leaves the window *)
+    gpre c. pose proof (G1 c ltac:(rewrite Ec; reflexivity)) as G1c.
+    split; [|split].
+    + nowin c.
+    + intros _. unfold gclaim, nb_eff, ctl in *. simp. rewrite count_new. g_simp. rewrite Hr0 in *.
+      ctl_cases Hctl; simp; try (rewrite Ec in * ); simp; g_simp; lia.
+    + intros w' Hw'. exfalso. revert Hw'. simp. split_upd; simp; g_simp; try discriminate. all: noret.
+  - (* CSNbInc (KStartA a b): start() counts a new thread, one fewer left to start *)
+    gpre c.
+    assert (Hall0 : forall x, ewin (cpc (cs s x)) = false).
+    { intros x. destruct (Nat.eq_dec x c) as [->|Hne]; [rewrite Ec; reflexivity | apply (window_unique s c x Hlk Hcd Hne)]. }
+    specialize (G0 Hall0).
+    split; [|split].
+    + nowin c.
+    + intros _. unfold gclaim, nb_eff, ctl in *. simp. rewrite count_new. g_simp. rewrite Hr0 in *.
+      ctl_cases Hctl; simp; try (rewrite Ec in * ); simp; g_simp; lia.
+    + intros w' Hw'. exfalso. revert Hw'. simp. split_upd; simp; g_simp; try discriminate. all: noret.
+  - (* CSNbInc (KStartB b): start() counts a new thread, one fewer left to start *)
+    gpre c.
+    assert (Hall0 : forall x, ewin (cpc (cs s x)) = false).
+    { intros x. destruct (Nat.eq_dec x c) as [->|Hne]; [rewrite Ec; reflexivity | apply (window_unique s c x Hlk Hcd Hne)]. }
+    specialize (G0 Hall0).
+    split; [|split].
+    + nowin c.
+    + intros _. unfold gclaim, nb_eff, ctl in *. simp. rewrite count_new. g_simp. rewrite Hr0 in *.
+      ctl_cases Hctl; simp; try (rewrite Ec in * ); simp; g_simp; lia.
+    + intros w' Hw'. exfalso. revert Hw'. simp. split_upd; simp; g_simp; try discriminate. all: noret.
+  - (* CSTStart KEnq: the new thread starts running (WNew -> WLoop); nothing the claim reads changes *)
+    gpre c.
+    assert (Hall0 : forall x, ewin (cpc (cs s x)) = false).
+    { intros x. destruct (Nat.eq_dec x c) as [->|Hne]; [rewrite Ec; reflexivity | apply (window_unique s c x Hlk Hcd Hne)]. }
+    specialize (G0 Hall0).
+    destruct (Hcr2 c _ w ltac:(rewrite Ec; reflexivity)) as [Hwlt Hwnew].
+    assert (Hcnt : count retiring (upd (ws s) w {| wpc := WLoop; wheld := None; wclean := false |}) (next_w s) = 0%nat).
+    { pose proof (count_upd_lt retiring (ws s) w {| wpc := WLoop; wheld := None; wclean := false |} (next_w s) Hwlt) as E.
+      rewrite Hwnew in E. cbn [retiring wpc b2n] in E. lia. }
+    split; [|split].
+    + nowin c.
+    + intros _. unfold gclaim, nb_eff, ctl in *. simp. rewrite Hcnt. rewrite Hr0 in *.
+      ctl_cases Hctl; simp; try (rewrite Ec in * ); simp; g_simp; lia.
+    + intros w' Hw'. exfalso. revert Hw'. simp. split_upd; simp; g_simp; try discriminate. all: noret.
+  - (* CSTStart (KStartA a b): the new thread starts running (WNew -> WLoop); nothing the claim reads changes *)
+    gpre c.
+    assert (Hall0 : forall x, ewin (cpc (cs s x)) = false).
+    { intros x. destruct (Nat.eq_dec x c) as [->|Hne]; [rewrite Ec; reflexivity | apply (window_unique s c x Hlk Hcd Hne)]. }
+    specialize (G0 Hall0).
+    destruct (Hcr2 c _ w ltac:(rewrite Ec; reflexivity)) as [Hwlt Hwnew].
+    assert (Hcnt : count retiring (upd (ws s) w {| wpc := WLoop; wheld := None; wclean := false |}) (next_w s) = 0%nat).
+    { pose proof (count_upd_lt retiring (ws s) w {| wpc := WLoop; wheld := None; wclean := false |} (next_w s) Hwlt) as E.
+      rewrite Hwnew in E. cbn [retiring wpc b2n] in E. lia. }
+    split; [|split].
+    + nowin c.
+    + intros _. unfold gclaim, nb_eff, ctl in *. simp. rewrite Hcnt. rewrite Hr0 in *.
+      ctl_cases Hctl; simp; try (rewrite Ec in * ); simp; g_simp; lia.
+    + intros w' Hw'. exfalso. revert Hw'. simp. split_upd; simp; g_simp; try discriminate. all: noret.
+  - (* CSTStart (KStartB b): the new thread starts running (WNew -> WLoop); nothing the claim reads changes *)
+    gpre c.
+    assert (Hall0 : forall x, ewin (cpc (cs s x)) = false).
+    { intros x. destruct (Nat.eq_dec x c) as [->|Hne]; [rewrite Ec; reflexivity | apply (window_unique s c x Hlk Hcd Hne)]. }
+    specialize (G0 Hall0).
+    destruct (Hcr2 c _ w ltac:(rewrite Ec; reflexivity)) as [Hwlt Hwnew].
+    assert (Hcnt : count retiring (upd (ws s) w {| wpc := WLoop; wheld := None; wclean := false |}) (next_w s) = 0%nat).
+    { pose proof (count_upd_lt retiring (ws s) w {| wpc := WLoop; wheld := None; wclean := false |} (next_w s) Hwlt) as E.
+      rewrite Hwnew in E. cbn [retiring wpc b2n] in E. lia. }
+    split; [|split].
+    + nowin c.
+    + intros _. unfold gclaim, nb_eff, ctl in *. simp. rewrite Hcnt. rewrite Hr0 in *.
+      ctl_cases Hctl; simp; try (rewrite Ec in * ); simp; g_simp; lia.
+    + intros w' Hw'. exfalso. revert Hw'. simp. split_upd; simp; g_simp; try discriminate. all: noret.
+  - (* CSTClear: start() is about to read the queue size: the claim is suspended until it has *)
+    intros Hst Hq. exfalso. apply Hq. ctl_cases Hctl; simp; reflexivity.
+  - (* CSTQsize: start() has read the backlog; it will start min(backlog, max) threads, then up to min_threads *)
+    intros Hst Hq. clear Hg.
+    assert (Hc0 : c = 0%nat).
+    { destruct (Nat.eq_dec c 0%nat) as [E0|Hne]; [exact E0|]. exfalso. pose proof (Hctl c Hne) as Hl. rewrite Ec in Hl. discriminate. }
+    subst c.
+    assert (Hcp : clear_pending s = 0) by (unfold clear_pending; rewrite Ec; reflexivity).
+    assert (Hhr : (count holding (ws s) (next_w s) + count retiring (ws s) (next_w s) <= count serving (ws s) (next_w s))%nat).
+    { apply count_disjoint_le.
+      - intros i _ Hh. pose proof (Hwf i) as Hwi. unfold holding, serving, retiring, wf_w in *.
+        destruct (wpc (ws s i)); try discriminate; split; reflexivity.
+      - intros i _ Hh. unfold serving, retiring in *. destruct (wpc (ws s i)); try discriminate; reflexivity. }
+    unfold I_unf in Hunf. unfold I_nb in Hnb. destruct Hcfg as (Hmx & Hmn0 & Hmn1).
+    assert (Hclaim : forall d, 0 <= d -> gclaim (cgo s 0%nat (CSTLoopA (Z.to_nat z) (Z.to_nat z0))) d).
+    { intros d Hd. unfold gclaim, nb_eff, ctl. simp. rewrite upd_same. simp. g_simp.
+      destruct (maxT s <? Z.of_nat (length (q s))) eqn:E1.
+      - inversion Em; subst. right. rewrite Z2Nat.id by lia. cbn. lia.
+      - apply Z.ltb_ge in E1. destruct (Z.of_nat (length (q s)) <? minT s) eqn:E2; inversion Em; subst.
+        + apply Z.ltb_lt in E2. left. rewrite !Z2Nat.id by lia. lia.
+        + left. rewrite !Z2Nat.id by lia. cbn. lia. }
+    split; [|split].
+    + intros c' _. apply Hclaim. lia.
+    + intros _. apply Hclaim. lia.
+    + intros w' Hw'. pose proof (Hret w' Hw') as Hx. unfold nb_eff in *. simp. exact Hx.
+  - (* CSTLoopA: one more thread for the backlog *)
+    intros Hst Hq.
+    assert (Hc0 : c = 0%nat).
+    { destruct (Nat.eq_dec c 0%nat) as [E0|Hne]; [exact E0|]. exfalso. pose proof (Hctl c Hne) as Hl. rewrite Ec in Hl. discriminate. }
+    subst c.
+    assert (Hq0 : cpc (cs s 0%nat) <> CSTQsize) by (rewrite Ec; discriminate).
+    destruct (Hg Hst Hq0) as (G1 & G0 & G3).
+    assert (Hcl : forall d, gclaim s d -> gclaim (cgo (set_counters s (nb_threads s) (nb_active s) (nb_pending s + 1)) 0%nat (CSLock (KStartA n b))) d).
+    { intros d. unfold gclaim, nb_eff, ctl. simp. rewrite upd_same. rewrite Ec. simp. g_simp. lia. }
+    split; [|split].
+    + intros c' Hc'. apply Hcl. destruct (Nat.eq_dec c' 0%nat) as [->|Hne].
+      * rewrite upd_same in Hc'. discriminate.
+      * rewrite upd_other in Hc' by exact Hne. exact (G1 c' Hc').
+    + intros Hall. apply Hcl, G0. intros c'. destruct (Nat.eq_dec c' 0%nat) as [->|Hne].
+      * rewrite Ec. reflexivity.
+      * specialize (Hall c'). rewrite upd_other in Hall by exact Hne. exact Hall.
+    + intros w' Hw'. pose proof (G3 w' Hw') as Hx. unfold nb_eff in *. simp. exact Hx.
+  - (* CSTLoopB: one more thread up to min_threads *)
+    intros Hst Hq.
+    assert (Hc0 : c = 0%nat).
+    { destruct (Nat.eq_dec c 0%nat) as [E0|Hne]; [exact E0|]. exfalso. pose proof (Hctl c Hne) as Hl. rewrite Ec in Hl. discriminate. }
+    subst c.
+    assert (Hq0 : cpc (cs s 0%nat) <> CSTQsize) by (rewrite Ec; discriminate).
+    destruct (Hg Hst Hq0) as (G1 & G0 & G3).
+    assert (Hcl : forall d, gclaim s d -> gclaim (cgo (set_counters s (nb_threads s) (nb_active s) (nb_pending s + 1)) 0%nat (CSLock (KStartB n))) d).
+    { intros d. unfold gclaim, nb_eff, ctl. simp. rewrite upd_same. rewrite Ec. simp. g_simp. lia. }
+    split; [|split].
+    + intros c' Hc'. apply Hcl. destruct (Nat.eq_dec c' 0%nat) as [->|Hne].
+      * rewrite upd_same in Hc'. discriminate.
+      * rewrite upd_other in Hc' by exact Hne. exact (G1 c' Hc').
+    + intros Hall. apply Hcl, G0. intros c'. destruct (Nat.eq_dec c' 0%nat) as [->|Hne].
+      * rewrite Ec. reflexivity.
+      * specialize (Hall c'). rewrite upd_other in Hall by exact Hne. exact Hall.
+    + intros w' Hw'. pose proof (G3 w' Hw') as Hx. unfold nb_eff in *. simp. exact Hx.
+Qed.
